@@ -315,6 +315,41 @@ pub fn run(rep: &Report, models: &[ModelDef], o: &Opts) {
                     }
                 }
             }
+            // long patterns (the 256-byte limits of the rare-byte prefilter):
+            // a few offsets; alone, followed by an occurrence of another
+            // pattern, and (case-insensitive models) in the opposite case
+            for (pi, p) in d.pats.iter().enumerate().filter(|(_, p)| p.len() > 24 && p.len() <= 600).take(3) {
+                let mut variants: Vec<Vec<u8>> = vec![p.clone()];
+                if d.ci {
+                    variants.push(p.iter().map(|&x| crate::spec::opposite(x)).collect());
+                    let mut m = p.clone();
+                    m[0] = crate::spec::opposite(m[0]);
+                    variants.push(m);
+                }
+                for (qi, q) in d.pats.iter().enumerate().filter(|(_, q)| !q.is_empty() && q.len() <= 24).take(2) {
+                    if qi != pi {
+                        let mut x = p.clone();
+                        x.extend(std::iter::repeat(bt).take(3));
+                        x.extend_from_slice(q);
+                        variants.push(x);
+                    }
+                }
+                for v in &variants {
+                    for &i in &[0usize, 1, 2, 17, 40] {
+                        for &j in &[0usize, 1, 30] {
+                            h.clear();
+                            h.extend(std::iter::repeat(bt).take(i));
+                            h.extend_from_slice(v);
+                            h.extend(std::iter::repeat(bt).take(j));
+                            st.add("long_template_cases", 1);
+                            case(&h, 0, h.len(), st);
+                            if i > 0 {
+                                case(&h, i, h.len(), st);
+                            }
+                        }
+                    }
+                }
+            }
         }
         st.add("layer2_maxlen_sum", n as u64);
         if rep.nsamples() < 4 && d.pats.len() >= 2 && i % 13 == 5 {
